@@ -1,0 +1,58 @@
+//go:build verif
+
+// Contracts for govc (see /verif/DESIGN.md). Comment-only file: no executable code.
+
+package ntm
+
+// ---------------------------------------------------------------------------
+// C29: BTP proofs require more than two thirds of distinct validator signatures
+// ---------------------------------------------------------------------------
+
+//@ property C29
+// address derivation of the network type (hash of the public key) as an uninterpreted function
+//@ smt all (declare-fun ntm_addr (Int BSeq) BSeq)
+//@ func (ntm *networkTypeModule) AddressFromPubKey(pubKey) (addr, err)
+//@   trusted
+//@   pure
+//@   ensures err == nil ==> seq(addr) == ntm_addr(ref(ntm), seq(pubKey)) && addr != nil
+//@ func (m secp256k1proofContextModule) AddressFromPubKey(pubKey) (addr, err)
+//@   iface
+//@   trusted
+//@   pure
+//@   ensures err == nil ==> seq(addr) == ntm_addr(ivalue(m), seq(pubKey)) && addr != nil
+
+// signer(mod, sig, h): the validator address that signature sig proves for hash h (mod: module reference)
+//@ spec signer(mod, sig, h) = ntm_addr(mod, sig_pk(ref(sig), seq(h)))
+
+//@ func (pc *secp256k1ProofContext) indexOf(address) (idx, ok)
+//@   trusted
+//@   modifies pc.addrToIndex
+
+//@ func (pp *secp256k1ProofPart) recover(mod, hash) (addr, err)
+//@   pure
+//@   requires pp != nil && pp.Signature != nil && mod != nil
+//@   ensures [signer] err == nil ==> sig_ok(ref(pp.Signature), seq(hash)) && seq(addr) == signer(ivalue(mod), pp.Signature, hash)
+
+// VerifyPart is called on proof parts decoded from the network: nothing is assumed about the part
+// beyond its Go type.
+//@ func (pc *secp256k1ProofContext) VerifyPart(dHash, pp) (idx, err)
+//@   requires pc != nil && pc.mod != nil && typeof(pp) == typeid(ptr_secp256k1ProofPart) && as(ptr_secp256k1ProofPart, pp) != nil
+//@   modifies pc.addrToIndex
+//@   ensures [index] err == nil ==> idx == as(ptr_secp256k1ProofPart, pp).Index && 0 <= idx && idx < len(pc.Validators)
+//@   ensures [signer] err == nil ==> as(ptr_secp256k1ProofPart, pp).Signature != nil && sig_ok(ref(as(ptr_secp256k1ProofPart, pp).Signature), seq(dHash)) && seq(pc.Validators[idx]) == signer(ref(pc.mod), as(ptr_secp256k1ProofPart, pp).Signature, dHash)
+//@   ensures [fail] err != nil ==> idx == -1
+
+// Verify: accepted only if more than two thirds of the validator slots carry a signature, each
+// recovering to the validator at its own slot (slots are distinct by construction).
+//@ spec sigs(p) = arr(as(ptr_secp256k1Proof, p).Signatures)
+//@ func (pc *secp256k1ProofContext) Verify(dHash, p) (err)
+//@   use nnz_zero, nnz_step, nnz_bounds, two_thirds_b
+//@   requires pc != nil && pc.mod != nil && typeof(p) == typeid(ptr_secp256k1Proof) && as(ptr_secp256k1Proof, p) != nil && off(as(ptr_secp256k1Proof, p).Signatures) == 0
+//@   modifies *
+//@   opt protect as(ptr_secp256k1Proof, p).Signatures[*], pc.Validators[*]
+//@   ensures [quorum] err == nil ==> 3 * nnz(old(sigs(p)), len(old(as(ptr_secp256k1Proof, p).Signatures))) > 2 * len(old(pc.Validators))
+//@   ensures [each] err == nil ==> (forall i int :: 0 <= i && i < len(old(as(ptr_secp256k1Proof, p).Signatures)) && old(sigs(p))[i] != 0 ==> i < len(old(pc.Validators)))
+//@   loop 0: invariant -1 <= rangeindex && rangeindex < len(ep.Signatures) && ep == as(ptr_secp256k1Proof, p) && ep != nil && set != nil
+//@   loop 0: invariant valid == nnz(arr(ep.Signatures), rangeindex + 1)
+//@   loop 0: invariant forall i int :: 0 <= i && i <= rangeindex && arr(ep.Signatures)[i] != 0 ==> i < len(pc.Validators)
+//@   loop 0: invariant ep.Signatures == old(as(ptr_secp256k1Proof, p).Signatures) && pc.Validators == old(pc.Validators) && pc.mod != nil && arr(ep.Signatures) == old(sigs(p))
